@@ -914,6 +914,12 @@ theorem tokSend_same {name : Asset → String} {w w' : World} {t sender dst amt 
       exact (tokTransfer_same h1).1.trans (routerReceive_same h2)
     · cases h
 
+theorem tokSendFrom_same {name : Asset → String} {w w' : World} {t sp o dst amt : Nat} {hk : Hook} {out : Out}
+    (h : tokSendFrom name w t sp o dst amt hk = .ok (w', out)) : Same w w' := by
+  obtain ⟨w1, h1, ⟨_, h2⟩ | ⟨_, _, _, h2⟩⟩ := tokSendFrom_ok h
+  · exact (tokTransferFrom_same h1).1.trans (pairReceive_same h2)
+  · exact (tokTransferFrom_same h1).1.trans (routerReceive_same h2)
+
 /-! ### … and which cw20 contracts exist (`SameToks`): the parallel of the `_same` lemmas above -/
 
 theorem pairSwap_toks {w w' : World} {p : Nat} {P : PairSt} {funds : List (Nat × Nat)} {trader : Nat}
@@ -1080,6 +1086,12 @@ theorem tokSend_toks {name : Asset → String} {w w' : World} {t sender dst amt 
       exact (tokTransfer_sameToks h1).trans (routerReceive_toks h2)
     · cases h
 
+theorem tokSendFrom_toks {name : Asset → String} {w w' : World} {t sp o dst amt : Nat} {hk : Hook} {out : Out}
+    (h : tokSendFrom name w t sp o dst amt hk = .ok (w', out)) : SameToks w w' := by
+  obtain ⟨w1, h1, ⟨_, h2⟩ | ⟨_, _, _, h2⟩⟩ := tokSendFrom_ok h
+  · exact (tokTransferFrom_sameToks h1).trans (pairReceive_toks h2)
+  · exact (tokTransferFrom_sameToks h1).trans (routerReceive_toks h2)
+
 /-! ### liveness is never revoked -/
 
 /-- the asset an operation can make live: the LP token instantiated for a created pair, the denom of an
@@ -1158,6 +1170,19 @@ theorem live_exec_iff {name : Asset → String} {w w' : World} {op : Op} {out : 
     simp only [exec, bind_ok_iff, pure_ok_iff, Prod.mk.injEq] at h
     obtain ⟨w1, h1, rfl, _⟩ := h
     exact key (tokBurn_same h1).1 (tokBurn_sameToks h1)
+  | tokTransferFrom t sp o d a =>
+    simp only [exec, bind_ok_iff, pure_ok_iff, Prod.mk.injEq] at h
+    obtain ⟨w1, h1, rfl, _⟩ := h
+    exact key (tokTransferFrom_same h1).1 (tokTransferFrom_sameToks h1)
+  | tokSendFrom t sp o d a hk => exact key (tokSendFrom_same h) (tokSendFrom_toks h)
+  | tokBurnFrom t sp o a =>
+    simp only [exec, bind_ok_iff, pure_ok_iff, Prod.mk.injEq] at h
+    obtain ⟨w1, h1, rfl, _⟩ := h
+    exact key (tokBurnFrom_same h1).1 (tokBurnFrom_sameToks h1)
+  | tokDecAllow t o sp a =>
+    simp only [exec, bind_ok_iff, pure_ok_iff, Prod.mk.injEq] at h
+    obtain ⟨w1, h1, rfl, _⟩ := h
+    exact key (tokDecAllow_same h1).1 (tokDecAllow_sameToks h1)
   | pair s p f m =>
     have h' : pairExec w s p f m = .ok (w', out) := h
     have ht := pairExec_toks h'
@@ -1267,6 +1292,19 @@ theorem regOK_step' {name : Asset → String} {w w' : World} {op : Op} {out : Ou
     simp only [exec, bind_ok_iff, pure_ok_iff, Prod.mk.injEq] at h
     obtain ⟨w1, h1, rfl, _⟩ := h
     exact regOK_same (tokBurn_same h1).1 (tokBurn_sameToks h1) hr
+  | tokTransferFrom t sp o d a =>
+    simp only [exec, bind_ok_iff, pure_ok_iff, Prod.mk.injEq] at h
+    obtain ⟨w1, h1, rfl, _⟩ := h
+    exact regOK_same (tokTransferFrom_same h1).1 (tokTransferFrom_sameToks h1) hr
+  | tokSendFrom t sp o d a hk => exact regOK_same (tokSendFrom_same h) (tokSendFrom_toks h) hr
+  | tokBurnFrom t sp o a =>
+    simp only [exec, bind_ok_iff, pure_ok_iff, Prod.mk.injEq] at h
+    obtain ⟨w1, h1, rfl, _⟩ := h
+    exact regOK_same (tokBurnFrom_same h1).1 (tokBurnFrom_sameToks h1) hr
+  | tokDecAllow t o sp a =>
+    simp only [exec, bind_ok_iff, pure_ok_iff, Prod.mk.injEq] at h
+    obtain ⟨w1, h1, rfl, _⟩ := h
+    exact regOK_same (tokDecAllow_same h1).1 (tokDecAllow_sameToks h1) hr
   | pair s p f m =>
     have h' : pairExec w s p f m = .ok (w', out) := h
     rcases pairExec_cases h' with hs | ⟨d, da, db, w0, rfl, hs0, hu⟩
